@@ -1,11 +1,55 @@
-//! C06 — check not built yet.
-use mc_core::Args;
-use serde_json::Value;
+//! C06 — note commitment trees and witnesses always agree with the chain.
+//!
+//! Evaluated in every state of the wallet state graph (see graph.rs): tree roots at every retained
+//! checkpoint against the frontier recorded at generation time, Merkle paths of every wallet note
+//! recomputed from the leaf, checkpoint alignment across pools, and the retained anchor grid.
+use mc_core::{Args, Run, Tier};
+use serde_json::{json, Value};
 
-pub fn replay(_kind: &str, _case: &Value) -> Result<(), String> {
-    Err("C06: check not built".into())
+use crate::graph::{self, Ctx, Op};
+use crate::universes;
+
+fn setup(name: &str, depth: usize, rewinds: u32, wall: f64) -> (crate::universe::Universe, graph::Cfg) {
+    let (u, mut cfg) = crate::c01::setup(name, depth, rewinds, wall);
+    cfg.with_roots = true;
+    cfg.check_trees = true;
+    // one tip symbol is enough here: tips do not touch the trees
+    cfg.tips.truncate(1);
+    (u, cfg)
 }
 
-pub fn run(_args: &Args) -> i32 {
-    mc_core::machinery_error("C06: check not built")
+pub fn replay(kind: &str, case: &Value) -> Result<(), String> {
+    if kind != "history" {
+        return Err(format!("unknown kind {kind}"));
+    }
+    let name = case["universe"].as_str().unwrap_or("tiny");
+    let ops: Vec<Op> = serde_json::from_value(case["ops"].clone()).map_err(|e| e.to_string())?;
+    let (u, cfg) = setup(name, 99, 9, 1e9);
+    let cx = Ctx { u: &u, cfg: &cfg, fresh: vec![] };
+    graph::replay_history(&cx, &ops, &[&graph::check_trees])
+}
+
+pub fn run(args: &Args) -> i32 {
+    let run = Run::new(args, "model_checking");
+    let plan: Vec<(&str, usize, u32, f64)> = match args.tier {
+        Tier::Quick => vec![("tiny", 12, 1, 45.0)],
+        Tier::Thorough => vec![("small", 12, 1, 300.0), ("mid", 10, 1, 500.0)],
+    };
+    run.set_rule(
+        "explicit-state BFS over the real SQLite wallet (operations Scan, Tip, Rewind+switch branch, PutSubtreeRoots), states matched on a canonical \
+         logical dump + reference model; in every state every retained checkpoint x every pool x every mined wallet note is evaluated; a state is \
+         non-trivial when reached by at least one operation and distinct by that key",
+    );
+    run.assume("a root / Merkle path must be computable only when every block from the birthday up to the checkpoint is scanned; when the wallet does compute one it must equal the chain's");
+    run.assume("trusted: incrementalmerkletree frontier arithmetic (ground-truth roots) and the pools' Merkle hash functions");
+    for (name, depth, rewinds, wall) in plan {
+        let (u, cfg) = setup(name, depth, rewinds, wall);
+        let cx = Ctx { u: &u, cfg: &cfg, fresh: vec![] };
+        let (stats, failures) = graph::search(&cx, &[&graph::check_trees]);
+        crate::c01::record(&run, name, &u, &cfg, &stats, failures);
+        run.require(stats.outcomes.keys().any(|k| k.starts_with("witness:ok")) || run.failure_count() > 0, "no witness verified");
+        run.require(stats.outcomes.contains_key("grid:present") || stats.outcomes.contains_key("grid:survived-pruning-depth") || run.failure_count() > 0, "no retained grid boundary observed");
+    }
+    run.sample(json!({"universe": "tiny", "ops": [Op::Roots, Op::Scan{from: universes::FIRST + 2, to: universes::FIRST + 4}, Op::Scan{from: universes::FIRST, to: universes::FIRST + 1}]}));
+    run.finish(&replay)
 }
